@@ -76,6 +76,7 @@ def variants(case):
                     and not kw['variableLengthFrags'] and kw['dialect'] == 'portable' and case['size'] is None)
     if default_opts and not any('\x00' in x for x in xs):
         out.append(('series', xs, 'series'))
+        out.append(('series', xs, 'catseries'))
     return out
 
 
